@@ -638,12 +638,6 @@ impl BlockFilterRpc for BlockFilterRpcImpl {
                 #[cfg(feature = "verif")]
                 crate::verif_hooks::point("reader", "tx_entry");
                 let tx_hash = packed::Byte32::from_slice(&value).expect("stored tx hash");
-                if tx_with_cells.len() == limit
-                    && tx_with_cells.last_mut().unwrap().transaction.hash != tx_hash.unpack()
-                {
-                    break;
-                }
-                last_key = key.to_vec();
                 let tx = packed::Transaction::from_slice(
                     &snapshot
                         .get(Key::TxHash(&tx_hash).into_vec())
@@ -710,15 +704,26 @@ impl BlockFilterRpc for BlockFilterRpcImpl {
                     };
 
                     if !filter_script_matched {
+                        last_key = key.to_vec();
                         continue;
                     }
                 }
 
                 if let Some([r0, r1]) = filter_block_range {
                     if block_number < r0 || block_number >= r1 {
+                        last_key = key.to_vec();
                         continue;
                     }
                 }
+
+                // Only a matched cell of another transaction ends the page, so that the cells of
+                // a transaction are grouped in the same way with or without paging.
+                if tx_with_cells.len() == limit
+                    && tx_with_cells.last_mut().unwrap().transaction.hash != tx_hash.unpack()
+                {
+                    break;
+                }
+                last_key = key.to_vec();
 
                 let last_tx_hash_is_same = tx_with_cells
                     .last_mut()
